@@ -180,6 +180,12 @@ func runC16(c *Ctx) {
 			footnoteCase(c, it.doc)
 		}
 	}
+	// the model of the parser with extension.Footnote (model/FootnoteI.v): tree and output
+	if c.Quick() {
+		footnoteModelCases(c, items, 6000)
+	} else {
+		footnoteModelCases(c, items, 80000)
+	}
 	lawSweep(c, cfgs, items, "footnote-graph", func(d []byte) bool { return true }, func(m mdT, d []byte) (string, bool) {
 		out, e, p := convertSafe(m.md, d)
 		if e != "" || p != "" {
